@@ -10,6 +10,8 @@ import (
 	"github.com/pingcap/advanced-statefulset/client/apis/apps/v1/helper"
 	appsv1 "k8s.io/api/apps/v1"
 	corev1 "k8s.io/api/core/v1"
+	apiequality "k8s.io/apimachinery/pkg/api/equality"
+	"k8s.io/apimachinery/pkg/api/meta"
 	metav1 "k8s.io/apimachinery/pkg/apis/meta/v1"
 	"k8s.io/apimachinery/pkg/runtime"
 
@@ -257,7 +259,11 @@ func c09Execute(w *world.World, seed int64, e c09Entry, f1, f2 *simapi.Fault) *c
 		g.Rec = 0
 		w.Srv.AddFault(&g)
 	}
+	// a conflict is followed by the informer catching up while the reconcile is still in its retry loop
+	// (the only situation in which such a retry can succeed)
+	w.CatchUp = f1 != nil && f1.Kind == "conflict"
 	out.Target = w.WorkerStep()
+	w.CatchUp = false
 	observe(out.Target)
 	w.Srv.ClearFaults()
 	if f2 != nil {
@@ -403,7 +409,8 @@ func runC09(ctx *Ctx) *Result {
 			if !tr.Crash && single {
 				absorbed := false
 				for _, c := range tr.Calls {
-					if c.Seq > fired.Seq && c.Identity() == fired.Identity() && c.OK() {
+					// absorbed = the same write was re-issued inside the reconcile, with the same intent, and succeeded
+					if c.Seq > fired.Seq && c.Identity() == fired.Identity() && c.OK() && sameIntent(fired, c) {
 						absorbed = true
 					}
 				}
@@ -559,6 +566,28 @@ func runC09(ctx *Ctx) *Result {
 		res.Stats["violations_"+k] = n
 	}
 	return res
+}
+
+// sameIntent compares what two calls of the same identity asked the server to do, ignoring the
+// resourceVersion they were based on (and, for status writes, everything but the status).
+func sameIntent(a, b *simapi.Call) bool {
+	if a.Verb == "patch" || a.Verb == "delete" || a.Verb == "get" || a.Verb == "list" {
+		return string(a.Patch) == string(b.Patch)
+	}
+	if a.Obj == nil || b.Obj == nil {
+		return a.Obj == b.Obj
+	}
+	x, y := a.Obj.DeepCopyObject(), b.Obj.DeepCopyObject()
+	if sa, ok := x.(*asv1.StatefulSet); ok && a.Sub == "status" {
+		sb, ok2 := y.(*asv1.StatefulSet)
+		return ok2 && apiequality.Semantic.DeepEqual(sa.Status, sb.Status)
+	}
+	for _, o := range []runtime.Object{x, y} {
+		m, _ := meta.Accessor(o)
+		m.SetResourceVersion("")
+		m.SetManagedFields(nil)
+	}
+	return apiequality.Semantic.DeepEqual(x, y)
 }
 
 func weakenForRemovedPod(l []string) []string {
